@@ -59,6 +59,41 @@ def _run_one(item):
         return {"ok": False, "err": type(e).__name__, "msg": str(e)[:300], "tb": traceback.format_exc()[-1200:], "problems": []}
 
 
+def _run_struct(item):
+    """optimise a hand-listed circuit (measurements next to preparations and gates) and project the result"""
+    from . import sfx, absproj
+    try:
+        prog = sfx.build_program(item["n"], item["circ"])
+        before = absproj.digest(prog)
+        opt = prog.optimize()
+        out = {"ok": True, "opt": absproj.project_circuit(opt.circuit), "opt_str": [str(c) for c in opt.circuit],
+               "modified": absproj.digest(prog) != before}
+        return out
+    except Exception as e:  # noqa
+        return {"ok": False, "err": type(e).__name__, "msg": str(e)[:300], "tb": traceback.format_exc()[-1200:]}
+
+
+def measurement_barriers():
+    """circuits in which a measurement sits next to an operation on its mode: Merge(measurement, .) = Merge(., measurement) = fail
+    in Optimizer.tla, so the measurement and its neighbours survive (a reset after a measurement does not absorb it)"""
+    A0, APi2, a345 = [[1, 1], [0, 1]], [[0, 1], [1, 1]], [[3, 5], [4, 5]]
+
+    def op(name, p, modes):
+        return {"name": name, "p": p, "modes": modes, "dag": False}
+    meas = [op("MeasureHomodyne", [A0, [1, 2], [1, 1]], [0]), op("MeasureHomodyne", [APi2, [0, 1], [0, 1]], [0])]
+    nxt = [op("Vacuum", [], [0]), op("Coherent", [[1, 2], A0], [0]), op("Squeezed", [[4, 3], APi2], [0]), op("Rgate", [a345], [0]),
+           op("Xgate", [[1, 2]], [0]), op("LossChannel", [[4, 5]], [0])]
+    ent = op("BSgate", [a345, A0], [0, 1])
+    out = []
+    for m in meas:
+        for x in nxt:
+            out.append({"n": 2, "circ": [op("Sgate", [[4, 3], A0], [0]), ent, m, x]})
+            out.append({"n": 2, "circ": [ent, x, m]})
+            out.append({"n": 2, "circ": [ent, x, m, x]})
+        out.append({"n": 2, "circ": [ent, m, m]})
+    return out
+
+
 def feats(item, extra=None):
     names = sorted({o["name"] for o in item["circ"]})
     f = {"families": "+".join(names), "dagger": any(o.get("dag") for o in item["circ"])}
@@ -79,7 +114,7 @@ def c03(chk):
                        "parameters of the optimised circuit are recovered exactly as rationals (denominator <= 1e6, verified 1e-9)"]
     chk.tlc("MC_Opt", constants={"NMod": 1, "Len0": 0, "AlphaId": "h", "EMIT": False},
             invariants=["MergeAlgebraSound", "SomeCancel", "SomeMerge"])
-    plans = [(1, 2, "h"), (2, 2, "g"), (1, 2, "m")] if tier == "quick" else [(1, 2, "h"), (2, 2, "h"), (1, 3, "h"), (2, 3, "g"), (1, 3, "m"), (2, 2, "m")]
+    plans = [(1, 2, "h"), (2, 2, "g"), (1, 2, "m"), (2, 3, "s")] if tier == "quick" else [(1, 2, "h"), (2, 2, "h"), (1, 3, "h"), (2, 3, "g"), (1, 3, "m"), (2, 2, "m"), (2, 3, "s")]
     common.warm(fock=False)
     for (n, L, alpha) in plans:
         r = chk.tlc("MC_Opt", constants={"NMod": n, "Len0": L, "AlphaId": alpha, "EMIT": True},
@@ -129,4 +164,22 @@ def c03(chk):
                                              "projected": o["opt"], "n": n})
         mid = items[len(items) // 3]
         chk.sample({"n": n, "program": short(mid["circ"])})
+    # measurements are barriers for the optimiser (direction B on hand-listed circuits)
+    items = measurement_barriers()
+    res = common.pmap(_run_struct, items)
+    cases, owners = [], []
+    for it, o in zip(items, res):
+        chk.count(key=json.dumps(it["circ"]), nontrivial=True)
+        if not o["ok"]:
+            chk.violation("UnexpectedError", feats(it, {"error": o["err"]}), {"program": short(it["circ"]), "msg": o["msg"], "tb": o.get("tb")})
+            continue
+        if o["modified"]:
+            chk.violation("OriginalModified", feats(it), {"program": short(it["circ"])})
+        cases.append({"n": it["n"], "orig": it["circ"], "opt": o["opt"]})
+        owners.append((it, o))
+    verdicts = tracecases.validate(chk, "TraceOpt", cases, "optmeas")
+    for k, (it, o) in enumerate(owners):
+        chk.traces += 1
+        if verdicts[k]["verdict"] != "accepted":
+            chk.violation(verdicts[k]["verdict"], feats(it), {"program": short(it["circ"]), "circ": it["circ"], "optimized": o["opt_str"], "projected": o["opt"]})
     chk.exhaustive = True
